@@ -364,6 +364,7 @@ struct ActiveCase {
   std::string desc;
   bool respBurst = false; // the addressed participant's acknowledge + response arrive in one piece
   std::vector<size_t> chunks;   // how many of the available transport bytes each read hands over (empty: all)
+  long dropArbWriteAt = -1;  // which arbitration write (plain device) is swallowed without echo, followed by a SYN
   int strayAfterArb = 0;  // percent of the won arbitrations (plain device) that are followed by a stray symbol right behind the own address
   int echoGlue = 0;       // percent of the reactions to a command that arrive in one read together with the echo of the host's CRC
   int synGlue = 0;        // percent of the SYNs that reach the host in one read together with the start of a following foreign telegram
@@ -417,6 +418,7 @@ static bool runActive(Rng& r, const ActiveCase& c, const std::string& tag, const
   w.bus.gluePct = c.synGlue;
   w.chunks = c.chunks;
   w.bus.strayAfterArbPct = c.strayAfterArb;
+  w.bus.dropArbWriteAt = c.dropArbWriteAt;
   w.bus.echoGluePct = c.echoGlue;
   for (auto& p : c.peers) w.bus.peers.push_back(p);
   Item s; s.kind = Item::SYN;
@@ -463,6 +465,7 @@ static bool runActive(Rng& r, const ActiveCase& c, const std::string& tag, const
   st.n["syn_glued_with_following_symbols"] += w.bus.glued;
   st.n["echo_glued_with_reaction"] += w.bus.echoGlued;
   st.n["stray_symbol_behind_own_address"] += w.bus.strays;
+  st.n["swallowed_arbitration_writes"] += (long long)w.bus.dropped.size();
   for (auto& sb : subs) w.handler->takeFinished(sb.req);
   MonConfig mc{c.cfg.own, c.cfg.readOnly, c.cfg.generateSyn, c.cfg.enhanced, c.cfg.answer, c.answers};
   if (c.burst > 1 || c.synGlue > 0 || c.respBurst) mc.deliveryLag = 4 * SYM;      // grouped delivery: up to 3 symbol times late
@@ -478,7 +481,7 @@ static bool runActive(Rng& r, const ActiveCase& c, const std::string& tag, const
     reqs.push_back(ri);
   }
   TxMonitor mon;
-  mon.run(w.bus.log, reqs, mc);
+  mon.run(w.bus.log, reqs, mc, &w.bus.dropped);
   bool bad = false;
   auto report = [&](const std::string& key, const std::string& detail) {
     if (key.compare(0, prefixFilter.size(), prefixFilter) != 0 && !prefixFilter.empty()) { st.n["other_property_alarms"]++; return; }
@@ -559,6 +562,7 @@ static void modeActive(long ncases, const std::string& which) {
     c.synGlue = r.chance(1, 3) ? r.pick(std::vector<int>{20, 50, 100}) : 0;
     c.echoGlue = r.chance(1, 3) ? r.pick(std::vector<int>{30, 100}) : 0;
     c.strayAfterArb = !c.cfg.enhanced && r.chance(1, 5) ? r.pick(std::vector<int>{30, 100}) : 0;
+    c.dropArbWriteAt = !c.cfg.enhanced && r.chance(1, 5) ? r.range(0, 3) : -1;
     // several transport bytes at once (groups, glue) may be cut anywhere by the read size, also inside a two byte adapter sequence
     // (not together with symbols of others grouped behind a SYN: a short read that hands over the SYN alone makes the host arbitrate
     // "directly after the SYN" as far as it can know while the wire already carries the next telegram - nothing the host could avoid)
